@@ -415,6 +415,8 @@ class Segment(object):
         @type val: string
         """
         (ele_idx, comp_idx) = self._parse_refdes(ref_des)
+        if ele_idx is None:
+            raise IndexError('{} is not a valid element index'.format(ref_des))
         while len(self.elements) <= ele_idx:
             # insert blank values before our value if needed
             self.elements.append(Composite('', self.subele_term))
